@@ -90,6 +90,20 @@ def exact_frames_stream(targets, pad: int = 1) -> bytes:
     return DR.g_write(seq, "triple", opts())
 
 
+def metadata_first_frame() -> bytes:
+    """A delimited stream whose first frame has no rows, only metadata, and is exactly 10 bytes
+    long (header 0A 7A 08); three ordinary frames follow."""
+    from mc.terms import I, L  # noqa: PLC0415
+
+    seq = [(I(f"http://a/s{i}"), I("http://a/p"), L(str(i))) for i in range(6)]
+    data = DR.g_write(seq, "triple", DR.make_options("triple", (16, 4, 4), 5, True))
+    raws = jwire.split_delimited(data)
+    lead = jwire.enc_frame([], {"k": b"abc"})
+    if len(lead) != 10:
+        raise HarnessError(f"metadata frame is {len(lead)} bytes, not 10")
+    return jwire.write_delimited([lead, *raws])
+
+
 @functools.cache
 def base_streams(size: str = "small") -> tuple:
     """size: 'small' (fewer, for quick) or 'full'."""
@@ -125,6 +139,7 @@ def base_streams(size: str = "small") -> tuple:
         data = DR.g_write(seq, cls, DR.make_options(cls, (16, 4, 4), 12, True))
         out.append(_entry(f"mid/{cls}/fs12", cls, data, all(T.is_rdf11(s) for s in seq)))
     out.append(_entry("optonly10/triple", "triple", options_only_first_frame(), True))
+    out.append(_entry("meta10/triple", "triple", metadata_first_frame(), True))
     out.append(_entry("exact128/triple", "triple", exact_frames_stream((128, 256, 384)), True))
     e = _entry("frame20k/triple", "triple", exact_frames_stream((20000,), pad=2), True)
     e["big"] = True  # (restricted cut / schedule sets in C09 and C10)
